@@ -85,8 +85,10 @@ class _Handler(logging.Handler):
 
 class C15(E1Check):
     id = "C15"
+    backends = ["asyncio", "trio"]
     assumptions = [
-        "asyncio backend on the controlled loop; signals are virtual (delivered through the loop's signal-handler table)",
+        "asyncio: controlled loop, virtual signals (delivered through the loop's signal-handler table) at every loop iteration; trio: MockClock, "
+        "real signals raised at quiescent points, batch-reversal deviations",
         "one fault per execution; trees of <= 3 components with gated prepare/start phases, optional background service task",
         "outcomes the statement leaves open (run() raising, crash during start-up, signal while a CLI run() is in progress, signal between the last "
         "phase and 'Application started') are checked for teardown completeness and order only",
@@ -137,6 +139,12 @@ class C15(E1Check):
     def hash_modes(self, tier: str, program: Any) -> tuple:
         return (0,)
 
+    def backends_for(self, tier: str, program: Any) -> tuple:
+        # trio: same programs; signals are real ones raised with signal.raise_signal() at quiescent points only
+        if tier == "quick" and program["tree"] not in ("r", "r(a)"):
+            return ("asyncio",)
+        return ("asyncio", "trio")
+
     def run(self, env: Any, program: dict) -> None:
         from asphalt.core import run_application
 
@@ -164,7 +172,7 @@ class C15(E1Check):
             with warnings.catch_warnings():
                 warnings.simplefilter("ignore")
                 try:
-                    run_application(tree.root_class, {}, backend="asyncio", backend_options={"loop_factory": env.loop_factory},
+                    run_application(tree.root_class, {}, backend=env.backend, backend_options=env.backend_options(),
                                     logging=None, start_timeout=5 if end["kind"] == "timeout" else 10)
                     env.data["outcome"] = ("return",)
                     env.log("RA-return")
@@ -174,6 +182,8 @@ class C15(E1Check):
                 except (Deadlock, HorizonExceeded, ReplayDivergence):
                     raise
                 except BaseException as e:  # noqa: BLE001
+                    if getattr(env, "deadlocked", False) or env.frozen:
+                        raise  # the explorer ended the run (dead-lock / horizon), this is not the application's outcome
                     env.data["outcome"] = ("raise", e)
                     env.log("RA-raise", type(e).__name__)
         finally:
